@@ -38,6 +38,7 @@ def run(tier: str) -> int:
     counts, scen = {}, 0
     try:
         bs = bodies()
+        M_, A0_ = G.mark(), G.await_("self.in0")
         vs = list(variants())
         rng = random.Random(rep.seed)
         progs = []
@@ -48,6 +49,13 @@ def run(tier: str) -> int:
             for v in vs:
                 for b in bs:
                     progs.append(G.render(b, **v))
+        # objects that are only ever pushed, noreset objects written through slices / bits only, contexts with a step condition
+        xb = [[M_, G.PULSE, A0_, G.PARTIAL, M_], [G.PARTIAL, G.while_("self.in1", [G.PULSE, M_, A0_]), M_], [G.PULSE, M_]]
+        k = 0
+        for rk, low, fall, sc in itertools.product(("sync", "async"), (False, True), (False, True), (None, "self.in2")):
+            for b in (xb if tier != "quick" else [xb[k % len(xb)]]):
+                progs.append(G.render(b, reset=rk, active_low=low, falling=fall, step_cond=sc, on_reset=(k % 2 == 1)))
+            k += 1
         budget = 160 if tier == "quick" else 2400
         t0 = time.time()
         done = 0
@@ -58,7 +66,7 @@ def run(tier: str) -> int:
             r = check_program(rep, wd, prog, 8)
             s = r["status"]
             counts[s] = counts.get(s, 0) + 1
-            vkey = "|".join(f"{k}={prog.meta.get(k)}" for k in ()) + f"{'async' if prog.reset_async else 'sync'}|low={prog.reset_active == 0}|falling={not prog.rising}|seen={_kind(prog, 'seen')}|cnt={_kind(prog, 'cnt')}|on_reset={bool(prog.meta.get('on_reset'))}"
+            vkey = "|".join(f"{k}={prog.meta.get(k)}" for k in ()) + f"{'async' if prog.reset_async else 'sync'}|low={prog.reset_active == 0}|falling={not prog.rising}|seen={_kind(prog, 'seen')}|cnt={_kind(prog, 'cnt')}|on_reset={bool(prog.meta.get('on_reset'))}" + ("|step_cond" if prog.meta.get("step_cond") else "") + ("|pulse" if "pulse" in prog.objs else "") + ("|partial" if "keep" in prog.objs else "")
             if s == "violation":
                 rep.violation(f"behaviour|{vkey}|{hash_body(prog)}", f"context differs from its source semantics at clock {r['clock']}: {r['log'][-1]}", {"source": prog.source, "trace": r["trace"], "log": r["log"], "vhdl": r["vhdl"]})
                 continue
